@@ -395,7 +395,11 @@ def r16_1(ctx, rc):
                 if default != 'REQUIRED' and not (
                         isinstance(default, ast.Constant)):
                     problems.append('non-constant default')
-            # codec pairs
+            # codec pairs (the argument may be a named local)
+            if isinstance(a, ast.Name):
+                cna = ctx.H.node_of(rfunc, a)
+                if cna:
+                    a = ctx.H.subst(a, rfunc, cna[0])
             if '.name' in cd:
                 if not any(isinstance(n, ast.Subscript) and
                            isinstance(n.value, ast.Name) and
@@ -615,11 +619,13 @@ def r16_3(ctx, rc):
     Rd = ctx.E.func(C + '.read_immutable')
     from ..effects import open_mode
     modes = {}
-    for f, role in ((W, 'w'), (Rd, 'r')):
-        for call in prog.calls_in(f):
-            for g in prog.resolve_call(call, f):
-                if g in ('gzip.open', 'builtins.open'):
-                    modes[role] = (g, open_mode(call), call, f)
+    for f0, role in ((W, 'w'), (Rd, 'r')):
+        for f in _cache_helpers(ctx, f0):
+            for call in prog.calls_in(f):
+                for g in prog.resolve_call(call, f):
+                    if g in ('gzip.open', 'builtins.open') and \
+                            role not in modes:
+                        modes[role] = (g, open_mode(call), call, f)
     key = 'gzip open modes'
     if 'w' not in modes:
         raise AnalysisError('the cache writer opens no file')
@@ -652,12 +658,12 @@ def r16_3(ctx, rc):
         else:
             rc.ok({'write': '%s %s' % (gw, mw), 'read': '%s %s' % (gr, mr),
                    'options': kw_w}, key=key)
-    dumps = [c for c in prog.calls_in(W)
-             if 'json.dumps' in prog.resolve_call(c, W) or
-             'json.dump' in prog.resolve_call(c, W)]
-    loads = [c for c in prog.calls_in(Rd)
-             if 'json.load' in prog.resolve_call(c, Rd) or
-             'json.loads' in prog.resolve_call(c, Rd)]
+    dumps = [c for f in _cache_helpers(ctx, W) for c in prog.calls_in(f)
+             if 'json.dumps' in prog.resolve_call(c, f) or
+             'json.dump' in prog.resolve_call(c, f)]
+    loads = [c for f in _cache_helpers(ctx, Rd) for c in prog.calls_in(f)
+             if 'json.load' in prog.resolve_call(c, f) or
+             'json.loads' in prog.resolve_call(c, f)]
     key = 'json.dumps / json.load'
     if not dumps or not loads:
         rc.violation('codec-json | write/read',
@@ -691,6 +697,8 @@ def r16_4(ctx, rc):
     from . import c02
     c02.r2_4(ctx, rc)
     c02.r2_9(ctx, rc)
+    # the backup of the old cache file has a slot of its own (R2.6b)
+    c02.r2_6b(ctx, rc)
     # the write happens after the user function returned
     N = c02._names(ctx)
     root = N['root']
